@@ -456,13 +456,20 @@ Definition reaction_copy (T : copytable) (h : heap) (r : addr) : heap * addr * b
       let model := match attr rc "_model" with Some v => v | None => None_ end in
       let mets := dict_keys h (attr rc "_metabolites") in
       let gns := dict_keys h (attr rc "_genes") in
+      (* owners: every metabolite / gene keeps its OWN model reference (it may belong to a model although the
+         reaction does not any more) *)
+      let own := fun x => match x with
+                          | Ref xa => match get h xa with
+                                      | Some c => match attr c "_model" with Some v => v | None => None_ end
+                                      | None => None_ end
+                          | At _ => None_ end in
       let h1 := set_attr h r "_model" None_ in
       let h2 := fold_left (set_model_of None_) mets h1 in
       let h3 := fold_left (set_model_of None_) gns h2 in
       let '(h4, v) := deep_copy T h3 (Ref r) in
       let h5 := set_attr h4 r "_model" model in
-      let h6 := fold_left (set_model_of model) mets h5 in
-      let h7 := fold_left (set_model_of model) gns h6 in
+      let h6 := fold_left (fun hh x => set_model_of (own x) hh x) mets h5 in
+      let h7 := fold_left (fun hh x => set_model_of (own x) hh x) gns h6 in
       match v with Ref r' => (h7, r', true) | At _ => (h7, r, false) end
   end.
 
